@@ -940,6 +940,10 @@ fn standalone_braced_content(line_without_newline: &str) -> Option<&str> {
     return None;
   }
   let inner = &trimmed[1..trimmed.len() - 1];
+  // `{1+1} and {b.mec}` is two brace expressions with text between them, not one stand-alone include
+  if inner.contains('{') || inner.contains('}') {
+    return None;
+  }
   Some(inner)
 }
 
